@@ -116,7 +116,7 @@ def run(pid, tier="quick", exclude=()):
         env["CARGO_TARGET_DIR"] = TARGET
         os.makedirs(TARGET, exist_ok=True)
         jpath = os.path.join(scratch, "kani.json")
-        cmd = ["cargo", "kani", "-Z", "unstable-options", "-Z", "stubbing", "--output-format=terse", "-j", "8",
+        cmd = ["cargo", "kani", "-Z", "unstable-options", "-Z", "stubbing"] + os.environ.get("VERIF_KANI_EXTRA", "").split() + ["--output-format=terse", "-j", "8",
                "--harness-timeout", (THOROUGH_TIMEOUT if tier == "thorough" else HARNESS_TIMEOUT) + "s", "--export-json", jpath]
         for hf, h in wanted:
             cmd += ["--harness", "verif_kani_%s::%s" % (hf["name"], h["name"])]
